@@ -207,6 +207,21 @@ def main():
     if sorted(arms) != sorted(vnames):
         raise Refuse("arms %s do not match the variants %s" % (sorted(arms), sorted(vnames)))
 
+    # helpers of RemotePeerHandle whose only effect is an unsuccessful Error::Authorisation answer (a refusal moved
+    # into a method, e.g. `peer.refuse(msg.id, "Query::Nodes")`): a call to one of them counts as that send
+    refusing_helpers = set()
+    for hm in re.finditer(r"async fn (\w+)\s*\(\s*&self\s*,\s*(\w+)\s*:\s*u64", outb):
+        hname, idvar = hm.group(1), hm.group(2)
+        if hname in ("send", "process_inbound"): continue
+        try:
+            hb = fn_body(outb, r"async fn %s\s*\(" % hname, hname)
+        except Refuse:
+            continue
+        hs = [paren_args(hb, m_.end() - 1)[0] for m_ in re.finditer(r"self\s*\.send\s*\(", hb)]
+        rest = re.sub(r"\s+", "", re.sub(r"self\s*\.send\s*\((?:.|\n)*?\)\s*\.await\??;?", "", hb))
+        if len(hs) == 1 and len(hs[0]) == 4 and hs[0][0] == idvar and hs[0][1] == "false" and hs[0][3].startswith("Error::Authorisation(") and rest == "":
+            refusing_helpers.add(hname)
+
     def analyse(name, binders, text):
         # top-level `if`
         depth = 0; k = 0; top_if = None
@@ -255,6 +270,11 @@ def main():
         else:
             unguarded = any(ok and not inside(pos, then_rng) for (pos, ok, _, _) in sends)
         refuses = else_rng is not None and any((not ok) and inside(pos, else_rng) and payload.startswith("Error::Authorisation(") for (pos, ok, _, payload) in sends)
+        for hname in refusing_helpers:
+            for hm_ in re.finditer(r"peer\s*\.%s\s*\(" % hname, text):
+                hargs, _ = paren_args(text, hm_.end() - 1)
+                if hargs and hargs[0] == "msg.id" and else_rng is not None and inside(hm_.start(), else_rng):
+                    refuses = True
         # data sources
         calls = []
         for cm in re.finditer(r"peer\s*\.db\s*\.(\w+)\s*\(", text):
